@@ -3,6 +3,8 @@ import Driver.Cmd.Pairing
 import Driver.Cmd.Render
 import Driver.Cmd.Callstacks
 import Driver.Cmd.TraceCodes
+import Driver.Cmd.Filters
+import Driver.Cmd.Format
 /-
   Line-protocol driver: one operation per line on stdin, one canonical answer per line on
   stdout.  Byte strings and texts travel as hex.  Imports no Mathlib (so it links).
@@ -11,7 +13,7 @@ import Driver.Cmd.TraceCodes
 open Driver
 
 def allCommands : List (String × Cmd) :=
-  Driver.Kevent.commands ++ Driver.Pairing.commands ++ Driver.Render.commands ++ Driver.Callstacks.commands ++ Driver.TraceCodes.commands
+  Driver.Kevent.commands ++ Driver.Pairing.commands ++ Driver.Render.commands ++ Driver.Callstacks.commands ++ Driver.TraceCodes.commands ++ Driver.Filters.commands ++ Driver.Format.commands
 
 def dispatch (line : String) : String :=
   match (line.trimAscii.toString.splitOn " ").filter (· ≠ "") with
